@@ -166,9 +166,10 @@ def declaredMethod (base : Option Str) (m : MethodDecl) : CMethod :=
 def declaredService (s : ServiceDecl) : CService :=
   { name := serviceName s.name, methods := s.methods.map (declaredMethod s.base) }
 
-/-- what "the compiler accepts the service" amounts to on this data, plus the one condition it
-does not check (`LiteralsClean`, open finding): every path parameter names a request property,
-distinct properties have distinct proto field names, literal parts are free of `{ } * :` -/
+/-- what "the compiler accepts the service" amounts to on this data: literal path parts are free
+of `{ } * :` (checked by `visitServiceMethodNode` since `fix:` 5ac34d8), every path parameter names
+a request property (checked there too), and distinct properties have distinct proto field names
+(protobuf's linker rejects the message otherwise) -/
 def ValidMethod (base : Option Str) (m : MethodDecl) : Prop :=
   LiteralsClean (resolvedPath base m.path) ∧ SnakeInjective m.req
     ∧ ∀ n ∈ pathParamNames (resolvedPath base m.path), n ∈ m.req
